@@ -82,6 +82,7 @@ func (z *Zipper) ComputeDiff() (*ZipperArtifacts, error) {
 
 	z.propagate()
 	z.matchTerminators()
+	z.enforceControlFlow()
 
 	return z.isolateDivergence(), nil
 }
@@ -189,6 +190,72 @@ func (z *Zipper) matchTerminators() {
 	oldTerms := collect(z.oldFn)
 	newTerms := collect(z.newFn)
 	z.matchUsers(oldTerms, newTerms)
+}
+
+// enforceControlFlow undoes matches that the control-flow graphs do not support. Instructions
+// are paired by data flow alone, so two versions that compute the same values but reach them
+// through exchanged branches (`if a > b { return x }; return y` against `if a > b { return y };
+// return x`) would otherwise have every instruction matched and be reported as preserved.
+// Blocks correspond when their terminators were matched; a matched pair must then sit in
+// corresponding blocks, the successors of a matched terminator must correspond position by
+// position, and so must the incoming edges of a matched phi. Pairs that fail are unmatched and
+// show up in the added/removed lists.
+func (z *Zipper) enforceControlFlow() {
+	blockOf := make(map[*ssa.BasicBlock]*ssa.BasicBlock)
+	for _, b := range z.oldFn.Blocks {
+		if n := len(b.Instrs); n > 0 {
+			if t, ok := z.instrMap[b.Instrs[n-1]]; ok && t.Block() != nil {
+				blockOf[b] = t.Block()
+			}
+		}
+	}
+
+	edgesCorrespond := func(old, new []*ssa.BasicBlock) bool {
+		if len(old) != len(new) {
+			return false
+		}
+		for k, b := range old {
+			if m, ok := blockOf[b]; ok && m != new[k] {
+				return false
+			}
+		}
+		return true
+	}
+
+	var bad []ssa.Instruction
+	for bi, b := range z.oldFn.Blocks {
+		nb, ok := blockOf[b]
+		if !ok {
+			continue // its terminator is unmatched: the block is reported anyway
+		}
+		if bi == 0 && len(z.newFn.Blocks) > 0 && nb != z.newFn.Blocks[0] {
+			bad = append(bad, b.Instrs[len(b.Instrs)-1])
+			continue
+		}
+		for idx, instr := range b.Instrs {
+			m, matched := z.instrMap[instr]
+			if !matched {
+				continue
+			}
+			switch {
+			case m.Block() != nb:
+				bad = append(bad, instr)
+			case idx == len(b.Instrs)-1 && !edgesCorrespond(b.Succs, nb.Succs):
+				bad = append(bad, instr)
+			default:
+				if _, isPhi := instr.(*ssa.Phi); isPhi && !edgesCorrespond(b.Preds, nb.Preds) {
+					bad = append(bad, instr)
+				}
+			}
+		}
+	}
+
+	for _, instr := range bad {
+		if m, ok := z.instrMap[instr]; ok {
+			delete(z.instrMap, instr)
+			delete(z.revInstrMap, m)
+		}
+	}
 }
 
 func (z *Zipper) mapValue(old, new ssa.Value) {
